@@ -70,10 +70,17 @@ def gen(rng, idx, tier):
         if used:
             skip = rng.sample(used, min(len(used), rng.choice([1, 1, 2])))
             tol_choice = rng.choice([None, 0.5])
+    info = {"unitsPerEm": 1000, "familyName": "T", "styleName": "R"}
+    if rng.random() < 0.2:
+        # explicit CFF width bases ("integer or float" in the UFO spec): a glyph's advance must
+        # not depend on them - equal to a glyph width, fractional, zero
+        ws = [g["width"] for g in glyphs] or [500]
+        info["postscriptDefaultWidthX"] = rng.choice([rng.choice(ws), 500.5, 400, 0, 600.25])
+        info["postscriptNominalWidthX"] = rng.choice([rng.choice(ws), 92.5, 93, 0, 250.75])
     return {
         "stratum": stratum,
         "skip": skip,
-        "ufo": {"glyphs": glyphs, "info": {"unitsPerEm": 1000, "familyName": "T", "styleName": "R"}},
+        "ufo": {"glyphs": glyphs, "info": info},
         # defcon's own change notifications recurse for ever on a cyclic component graph while the
         # font is being BUILT (before ufo2ft sees it), so cycles are only built with ufoLib2
         "lib": "ufoLib2" if stratum == "cycle" else rng.choice(["defcon", "ufoLib2"]),
@@ -545,6 +552,8 @@ def run(case):
                 violations.append({"mech": "charstring_width", "detail": {
                     "glyph": name, "hmtx": adv, "charstring": cs.width}})
             bump("cff1_width_checked")
+            if "postscriptNominalWidthX" in spec["info"]:
+                bump("cff1_width_checked_with_explicit_width_bases")
     order = tt.getGlyphOrder()
     extra = [n for n in order if n not in glyphs and n != ".notdef"]
     if extra:
